@@ -38,6 +38,8 @@ H0 == [cfg |-> [cap |-> FALSE, maxIdle |-> 0, idleTimeout |-> 0], uris |-> <<>>,
        backAt |-> <<>>,      \* [connection -> index of its last hand-back (WhenReady) record, 0 if none]
        tickAtBack |-> <<>>,  \* [connection -> clock at its last hand-back]
        aband |-> {},         \* dials abandoned (pre-empted or cancelled) before they completed
+       own |-> {},           \* requests that certainly got a connector of their own at Issue (no usable idle, no attempt in flight)
+       unstarted |-> {},     \* ... and were pre-empted or cancelled before they ever started their dial
        viol |-> <<>>]        \* falsified clauses: sequence of [l, tag, r, c]
 
 Init == l = 0 /\ h = H0
@@ -71,10 +73,11 @@ FreshAt(hh, pre, e, c) ==
   IF hh.cfg.idleTimeout # 2 THEN TRUE
   ELSE IF c \in 1..Len(e.ages) THEN e.ages[c][2] < SmallMs
   ELSE Get(hh.backAt, c, 0) # 0 /\ Get(hh.tickAtBack, c, 0) = pre.ticks
+\* (ages are measured for hand-backs of non-shared connections and for the registration / last checkout of shared ones)
 ExpiredAt(hh, pre, e, c) ==
-  /\ hh.cfg.idleTimeout = 2 /\ Get(hh.backAt, c, 0) # 0
+  /\ hh.cfg.idleTimeout = 2
   /\ IF c \in 1..Len(e.ages) THEN e.ages[c][1] > SmallMs /\ e.ages[c][2] < 1000000
-     ELSE pre.ticks > Get(hh.tickAtBack, c, 0)
+     ELSE Get(hh.backAt, c, 0) # 0 /\ pre.ticks > Get(hh.tickAtBack, c, 0)
 
 Holders(o, c) == {r \in 1..NReqO(o) : o.req[r].held = c}
 InCheckout(o, r) == r \in 1..NReqO(o) /\ o.req[r].st = "checkout"
@@ -140,8 +143,7 @@ C05(hh, pre, e, post) ==
            ia == Get(hh.issueAt, e.r, 0)
        IN (IF ca # 0 /\ ca < ia THEN <<V("C05:closed-before-issue", e.r, e.c)>> ELSE <<>>)
           \o (IF ca # 0 /\ ba # 0 /\ ca < ba THEN <<V("C05:closed-before-hand-back", e.r, e.c)>> ELSE <<>>)
-          \o (IF /\ hh.cfg.idleTimeout = 2 /\ ~post.conn[e.c].h2 /\ ba # 0 /\ ba < ia
-                 /\ e.c \in Get(hh.expAt, e.r, {})
+          \o (IF hh.cfg.idleTimeout = 2 /\ e.c \in Get(hh.expAt, e.r, {})
               THEN <<V("C05:expired", e.r, e.c)>> ELSE <<>>)
   ELSE <<>>
 
@@ -159,6 +161,11 @@ C14(hh, pre, e, post) ==
   \o (IF /\ hh.alive /\ e.e = "WhenReady" /\ IsUsable(pre, e.c) /\ ~pre.conn[e.c].h2 /\ pre.conn[e.c].live > 0
          /\ LiveWaiter(hh, pre, pre.conn[e.c].o) /\ post.conn[e.c].live = 0
       THEN <<V("C14:released-connection-not-delivered-to-waiter", 0, e.c)>> ELSE <<>>)
+  \o (IF /\ e.e = "Poll" /\ ~e.first /\ ~e.woken /\ e.res = "Handoff" /\ HasConn(post, e.c) /\ post.conn[e.c].by # e.r
+      THEN <<V("C14:freed-connection-delivered-without-wake-up", e.r, e.c)>> ELSE <<>>)
+  \o (IF /\ e.e = "Drain" /\ hh.cfg.cap /\ hh.alive
+         /\ \E r \in hh.unstarted : ~\E d \in 1..NConnO(post) : post.conn[d].by = r
+      THEN <<V("C14:abandoned-unstarted-attempt-not-continued-with-cap", CHOOSE r \in hh.unstarted : ~\E d \in 1..NConnO(post) : post.conn[d].by = r, 0)>> ELSE <<>>)
   \o (IF e.e = "Drain" /\ hh.cfg.cap /\ \E d \in hh.aband : post.conn[d].dial = "dropped"
       THEN <<V("C14:abandoned-attempt-dropped-with-cap", 0, CHOOSE d \in hh.aband : post.conn[d].dial = "dropped")>> ELSE <<>>)
   \o (IF /\ hh.alive /\ e.e = "Bg" /\ e.d = 0 /\ hh.cfg.cap
@@ -202,10 +209,11 @@ Upd(hh, pre, e, post) ==
          IN [hh EXCEPT !.issueAt = Put(@, e.r, l + 1, 0),
                        !.tickAtIssue = Put(@, e.r, pre.ticks, 0),
                        !.hadIdle = Put(@, e.r, usable, FALSE),
-                       !.expAt = Put(@, e.r, {c \in IdleSet(hh, pre, e.o) : ~pre.conn[c].h2 /\ ExpiredAt(hh, pre, e, c)}, {}),
+                       !.expAt = Put(@, e.r, {c \in IdleSet(hh, pre, e.o) : ExpiredAt(hh, pre, e, c)}, {}),
                        !.inflight = Put(@, e.r, infl /\ ~usableAny, FALSE),
                        !.openH2 = Put(@, e.r, oh2 /\ ReuseAsserted(hh), FALSE),
                        !.reserved = Put(@, e.r, res, 0),
+                       !.own = IF ~usableAny /\ ~infl /\ e.res # "Panicked" THEN @ \cup {e.r} ELSE @,
                        !.att = IF e.h2 /\ ~usableAny /\ ~infl /\ e.res # "Panicked" THEN @ \cup {e.r} ELSE @]
     [] e.e = "Poll" ->
          LET ownDial == {d \in 1..NConnO(pre) : pre.conn[d].by = e.r /\ d # e.c /\ pre.conn[d].dial \in {"connecting", "handshaking"}}
@@ -215,6 +223,7 @@ Upd(hh, pre, e, post) ==
          IN [hh EXCEPT !.dialed = IF e.res = "DialStart" THEN Put(@, e.r, TRUE, FALSE) ELSE @,
                        !.reserved = IF e.res \in {"Handoff", "PollErr", "Panicked"} THEN Put(@, e.r, 0, 0) ELSE @,
                        !.aband = IF preempted THEN @ \cup ownDial ELSE @,
+                       !.unstarted = IF e.res = "Handoff" /\ e.r \in hh.own /\ ~Get(hh.dialed, e.r, FALSE) THEN @ \cup {e.r} ELSE @,
                        !.att = IF e.res = "DialStart" /\ post.req[e.r].h2 THEN @ \cup {e.r}   \* (a released waiter took the attempt over)
                                ELSE IF e.res \in {"PollErr", "Panicked"} THEN @ \ {e.r}
                                ELSE IF e.res = "Handoff" THEN (IF hh.cfg.cap /\ (preempted \/ unstarted) THEN @ ELSE @ \ {e.r})
@@ -224,6 +233,7 @@ Upd(hh, pre, e, post) ==
              back == Get(hh.reserved, e.r, 0)      \* a connection taken from the pool and never used goes back to it
          IN [hh EXCEPT !.reserved = Put(@, e.r, 0, 0),
                        !.backAt = IF e.stage = "checkout" /\ back # 0 THEN Put(@, back, l + 1, 0) ELSE @,
+                       !.unstarted = IF e.stage = "checkout" /\ e.r \in hh.own /\ ~Get(hh.dialed, e.r, FALSE) THEN @ \cup {e.r} ELSE @,
                        !.aband = IF e.stage = "checkout" THEN @ \cup ownDial ELSE @,
                        !.att = IF e.stage = "checkout" /\ ~hh.cfg.cap THEN @ \ {e.r} ELSE @]
     [] e.e = "Bg" ->
